@@ -136,11 +136,11 @@ def run(ctx):
     rng = ctx.rng
     msolve.install(ctx, owner="C01", brute_cap=64)
     thorough = ctx.tier == "thorough"
-    per = 36 if not thorough else 400
+    per = 36 if not thorough else 150
     names = list(rules.PUZZLES)
     for t in range(per):
         for name in names:
-            inst = rules.PUZZLES[name].gen(rng, thorough)
+            inst = rules.PUZZLES[name].gen(rng, thorough and rng.random() < 0.25)
             with ctx.guard(240):
                 judge(ctx, name, inst)
             if t == 0 and ctx.shard == 0 and name in ("slitherlink", "heyawake"):
